@@ -162,6 +162,7 @@ fn gen_c18(r: &mut Rng, _t: Tier, job: u64) -> Plan {
         cert,
         v13: r.chance(2, 3),
         seed: r.next(),
+            chain: *r.pick(&[0u8, 0, 1, 2, 3]),
     });
     p.cfg.tls_offered = !r.chance(1, 12);
     p.cfg.tls_require_cert = cert || r.chance(1, 4);
